@@ -111,7 +111,7 @@ class Hooks:
             put(ex_, argv[0], sc)
             rec.calls.append(("sdec", {"bytes": data, "ok": ok, "scalar": sc}))
             return T.t_sub(0, T.t_zext(ok, 32), 32)
-        ex.add_call_hook(r"modint.*ModInt256.*set_decode32$|modint.*ModInt256.*set_decode3217h", h_sdec)
+        ex.add_call_hook(SDEC_PAT, h_sdec)
 
         def h_red(ex_, name, argv, rty):
             n = argv[2] if len(argv) > 2 else 32
@@ -151,6 +151,37 @@ class Hooks:
             rec.calls.append(("enc", {"P": pt, "bytes": out}))
             return None
         ex.add_call_hook(r"%s.*Point.*encode_compressed" % curve, h_enc)
+
+
+SDEC_PAT = r"modint.*ModInt256.*set_decode32$|modint.*ModInt256.*set_decode3217h"
+STUB_PAT = r"set_decode_reduce|set_div|set_mulgen|encode_compressed|SHA2Small.*process|SHA2Big.*process"
+
+
+def calls_reachable(module, root, pattern):
+    """is a function matching `pattern` called (directly, or through callees that are not stubbed) from `root`?
+    Static scan of the IR text: the path exploration is only bounded if the rejection loop meets a stub."""
+    import re
+    pat, stop = re.compile(pattern), re.compile(STUB_PAT)
+    ref = re.compile(r'@("(?:[^"\\]|\\.)*"|[-a-zA-Z$._0-9]+)')
+    seen, work = set(), [module.resolve(root)]
+    while work:
+        f = work.pop()
+        if f in seen or f not in module.fpos:
+            continue
+        seen.add(f)
+        fn = module.function(f)
+        for lines in fn.blocks.values():
+            for ln in lines:
+                if "call " not in ln and "invoke " not in ln:
+                    continue
+                for m in ref.finditer(ln):
+                    n = m.group(1)
+                    n = module.resolve(n[1:-1] if n.startswith('"') else n)
+                    if pat.search(n):
+                        return True
+                    if n in module.fpos and not stop.search(n):
+                        work.append(n)
+    return False
 
 
 def run_paths(built, hooks, drv, curve, max_paths=16):
@@ -261,6 +292,9 @@ def check_sign(built, hooks, shape, timeout):
                     "all key scalar limbs, hash and extra-randomness bytes at these lengths; retry loop: first iteration",
                     DESC[curve])
     t0 = time.time()
+    if curve == "p256" and not calls_reachable(built.module, drv, SDEC_PAT):
+        return [ob.unknown("Scalar::set_decode32 is not a call in this build of sign_hash (inlined): the stub model does not "
+                           "apply and the retry loop would not be bounded")]
     try:
         paths, nq, trunc = run_paths(built, hooks, drv, curve)
     except ExecError as e:
@@ -279,16 +313,15 @@ def check_sign(built, hooks, shape, timeout):
     again = [p for p in paths if p.outcome == "reenter"]
     if not rets:
         return [ob.unknown("no path returns a signature in the stubbed model (retry loop not bounded by the stubs?)")]
-    if curve == "p256" and not any(_calls(p, "sdec") for p in paths):
-        return [ob.unknown("Scalar::set_decode32 is not a call in this build of sign_hash (inlined); the stub model does not apply")]
     ins = rets[0].ins
     x, hv, er = list(ins["x"]), list(ins["hv"]), list(ins.get("er", []))
     tmp = hv[:32] if hvlen >= 32 else [0] * (32 - hvlen) + hv
     problems = []
+    HT = min(timeout, 20)     # hash-chain comparisons are term identities on the unchanged code; z3 only gets what differs
 
-    def eq(a, b, w, what):
+    def eq(a, b, w, what, tmo=None):
         nonlocal nq
-        v, q = _equal(a, b, w, timeout)
+        v, q = _equal(a, b, w, tmo or min(timeout, 60))
         nq += q
         if v != "unsat":
             problems.append(what + ("" if v in ("sat", "length") else " (solver: %s)" % v))
@@ -318,7 +351,7 @@ def check_sign(built, hooks, shape, timeout):
             V2 = _hmac(K2, V1)
             T1 = _hmac(K2, V2)
             if not eq(sd[0]["bytes"], T1[::-1], 8,
-                      "the nonce candidate is not the RFC 6979 HMAC-SHA-256 output for (be(x), be(h) = bits2octets, extra)"):
+                      "the nonce candidate is not the RFC 6979 HMAC-SHA-256 output for (be(x), be(h) = bits2octets, extra)", HT):
                 return None
             K3 = _hmac(K2, T1 + [0])
             V3 = _hmac(K3, T1)
@@ -329,10 +362,16 @@ def check_sign(built, hooks, shape, timeout):
         xl = _ref(built, "drv_secp256k1_s_encle", a=x)
         hl = _ref(built, "drv_secp256k1_s_encle", a=h)
         if not eq(red[1]["bytes"], _sha(xl + hl + er, curve), 8,
-                  "the nonce is not reduce(SHA-512(le(x) || le(h) || extra))"):
+                  "the nonce is not reduce(SHA-512(le(x) || le(h) || extra))", HT):
             return None
         k = _ref(built, "drv_secp256k1_s_kfix", k=red[1]["scalar"])
-        return h, {"scalar": k}, _ref(built, "drv_secp256k1_s_knext", k=k)
+        mg = _calls(p, "mulgen")
+        if not mg or not eq(mg[0]["scalar"], k, 64, "R is not mulgen(k) for the derived nonce k (0 replaced by 1)"):
+            if not mg:
+                problems.append("no point multiplication by the nonce")
+            return None
+        # the successor is computed from the library's own form of k (just shown equal to the reference form)
+        return h, {"scalar": k}, _ref(built, "drv_secp256k1_s_knext", k=mg[0]["scalar"])
 
     reached = False
     for p in rets:
@@ -386,7 +425,7 @@ def check_sign(built, hooks, shape, timeout):
             nxt = spec[2]
             if curve == "p256":
                 if p.info["kind"] != "sdec" or not eq(p.info["data"]["bytes"], nxt, 8,
-                                                      "after a rejection the next candidate is not HMAC_K'(V') with K' = HMAC_K(T || 00), V' = HMAC_K'(T)"):
+                                                      "after a rejection the next candidate is not HMAC_K'(V') with K' = HMAC_K(T || 00), V' = HMAC_K'(T)", HT):
                     if p.info["kind"] != "sdec":
                         problems.append("a rejection path computes a second point before a second candidate")
                     break
